@@ -1,7 +1,7 @@
 """C20 — tickets are never forged, duplicated, zeroed or merged incorrectly.
 
 (A) correspondence: programs over TICKET / READ_TICKET / SPLIT_TICKET / JOIN_TICKETS mixed with
-    DUP, DUP n, SWAP, DROP, DIG, DUG, PAIR, UNPAIR, CAR, CDR, SOME, NONE, IF_NONE, NIL, CONS, IF_CONS,
+    DUP, DUP n, SWAP, DROP, DIG, DUG, PAIR, UNPAIR, CAR, CDR, SOME, NONE, IF_NONE, NIL, CONS, IF_CONS, ITER,
     PUSH run by the real pytezos Interpreter (the self address is switched between top-level segments
     to obtain several ticketers) vs Michelson/Tickets.v `exec_from` evaluated inside coqc.
 (B) the property's own oracle on the interpreter's final stack: no ticket with amount 0; for every
@@ -211,6 +211,17 @@ class RefMachine:
                 self.run(i[1])
             else:
                 self.run(i[2])
+        elif op == 'ITER':
+            (l,) = self.pop(1)
+            if l[0] == 'list':
+                items = l[2]
+            elif l[0] == 'pair':       # pytezos: no type assertion, a pair iterates over its two components
+                items = [l[1], l[2]]
+            else:
+                raise Stuck('not iterable')
+            for x in items:
+                self.stack.insert(0, x)
+                self.run(i[1])
         elif op == 'PUSH_NAT':
             if i[1] < 0:
                 raise Stuck('negative nat')
@@ -250,6 +261,8 @@ def instr_text(i):
         return f'{op} {ty_text(i[1])}'
     if op in ('IF_NONE', 'IF_CONS'):
         return f'{op} {{ {prog_text(i[1])} }} {{ {prog_text(i[2])} }}'
+    if op == 'ITER':
+        return f'ITER {{ {prog_text(i[1])} }}'
     if op == 'PUSH_NAT':
         return f'PUSH nat {i[1]}'
     if op == 'PUSH_STR':
@@ -324,6 +337,8 @@ def coq_instr(i):
         return f'({op} {coq_ty(i[1])})'
     if op in ('IF_NONE', 'IF_CONS'):
         return f'({op} {coq_prog(i[1])} {coq_prog(i[2])})'
+    if op == 'ITER':
+        return f'(ITER {coq_prog(i[1])})'
     if op == 'PUSH_NAT':
         return f'(PUSH_NAT {cZ(i[1])})'
     if op in ('PUSH_STR', 'SELF_IS'):
@@ -464,6 +479,8 @@ def random_instr(rng, depth=0):
         return ('PUSH_NAT', rng.choice(AMOUNTS))
     if k == 19:
         return ('PUSH_STR', rng.choice(STRS))
+    if k == 22 and depth < 2:
+        return ('ITER', [random_instr(rng, depth + 1) for _ in range(rng.randrange(0, 3))])
     if k in (20, 21) and depth < 2:
         return (rng.choice(['IF_NONE', 'IF_CONS']), [random_instr(rng, depth + 1) for _ in range(rng.randrange(0, 3))],
                 [random_instr(rng, depth + 1) for _ in range(rng.randrange(0, 3))])
@@ -506,7 +523,9 @@ def applicable(rng, m, depth):
     if top and top[0] in ('some', 'none') and depth < 3:
         out += [('IF_NONE',)] * 6
     if top and top[0] == 'list' and depth < 3:
-        out += [('IF_CONS',)] * 3
+        out += [('IF_CONS',)] * 3 + [('ITER',)] * 3
+    if top and top[0] == 'pair' and depth < 3 and rng.random() < 0.1:
+        out += [('ITER',)]
     if len(s) >= 2:
         out += [('SWAP',), ('DIG', rng.randrange(0, len(s))), ('DUG', rng.randrange(0, len(s))), ('PAIR',)]
         n = rng.randrange(1, len(s) + 1)
@@ -545,6 +564,18 @@ def gen_block(rng, m, n, depth, p_bad):
             if stuck:
                 return prog, True
             continue
+        if i[0] == 'ITER' and len(i) == 1:
+            top = m.stack[0]
+            items = top[2] if top[0] == 'list' else [top[1], top[2]]
+            if items:
+                probe = RefMachine(m.self)
+                probe.stack = [items[0]] + list(m.stack[1:])
+                body, _ = gen_block(rng, probe, rng.randrange(0, 4), depth + 1, p_bad)
+                if not body and items[0][0] == 'ticket' and rng.random() < 0.7:
+                    body = rng.choice([[('DROP',)], [('SOME',), ('DROP',)], [('READ_TICKET',), ('DROP',), ('DROP',)]])
+            else:
+                body = [random_instr(rng, depth + 1) for _ in range(rng.randrange(0, 3))]
+            i = ('ITER', body)
         prog.append(i)
         try:
             m.step(i)
@@ -598,6 +629,19 @@ def split_join_unit_cases(rng, addrs):
         out.append((a0, [('PUSH_NAT', n), ('PUSH_NAT', 7), ('TICKET',), ('IF_NONE', [('PUSH_NAT', 0)], [('PUSH_NAT', 3), ('DUPN', 2)])]))
         out.append((a0, [('PUSH_NAT', n), ('PUSH_NAT', 7), ('TICKET',), ('IF_NONE', [('PUSH_NAT', 0)],
                                                                        [('NIL', ('ticket', 'nat')), ('SWAP',), ('CONS',), ('DUP',)])]))
+    tk = lambda n: [('PUSH_NAT', n), ('PUSH_NAT', 7), ('TICKET',), ('IF_NONE', [('PUSH_NAT', 99)], [])]  # noqa: E731
+    two = tk(3) + [('NIL', ('ticket', 'nat')), ('SWAP',), ('CONS',)] + tk(2) + [('CONS',)]
+    out.append((a0, two + [('ITER', [('DROP',)])]))
+    out.append((a0, two + [('ITER', [('DUP',)])]))
+    out.append((a0, two + [('ITER', [('READ_TICKET',), ('SWAP',), ('DROP',)])]))
+    out.append((a0, tk(5) + two + [('ITER', [('PAIR',), ('JOIN_TICKETS',), ('IF_NONE', [('PUSH_NAT', 99)], [])])]))
+    out.append((a0, tk(5) + [('SELF_IS', a1)] + two + [('ITER', [('PAIR',), ('JOIN_TICKETS',), ('IF_NONE', [('PUSH_NAT', 99)], [])])]))
+    out.append((a0, [('PUSH_NAT', 1), ('PUSH_NAT', 2), ('PAIR',), ('ITER', [('DROP',)])]))
+    out.append((a0, tk(4) + tk(6) + [('PAIR',), ('ITER', [('SOME',)])]))
+    out.append((a0, [('PUSH_NAT', 1), ('ITER', [('DROP',)])]))
+    out.append((a0, tk(4) + [('ITER', [('DROP',)])]))
+    out.append((a0, tk(4) + [('SOME',), ('ITER', [('DROP',)])]))
+    out.append((a0, [('PUSH_STR', 'ab'), ('ITER', [('DROP',)])]))
     out.append((a0, [('NIL', ('ticket', 'nat')), ('DUP',)]))
     out.append((a0, [('NONE', ('ticket', 'string')), ('DUP',)]))
     out.append((a0, [('NONE', ('pair', 'nat', ('ticket', 'string'))), ('PUSH_NAT', 1), ('DUPN', 2)]))
@@ -636,6 +680,8 @@ def has(prog, names):
         if i[0] in names:
             return True
         if i[0] in ('IF_NONE', 'IF_CONS') and (has(i[1], names) or has(i[2], names)):
+            return True
+        if i[0] == 'ITER' and has(i[1], names):
             return True
     return False
 
@@ -691,7 +737,7 @@ def run(ctx: lib.Ctx) -> None:
         nt = has(prog, ('SPLIT_TICKET', 'JOIN_TICKETS', 'READ_TICKET')) or (has(prog, ('TICKET',)) and has(prog, ('DUP', 'DUPN')))
         ctx.case((addr, repr(prog)), nontrivial=nt, kind=f'{kind}:{obs[0]}',
                  sample={'self': addr, 'program': prog_text([i for i in prog])[:400], 'result': to_json(obs)})
-        for name in ('TICKET', 'READ_TICKET', 'SPLIT_TICKET', 'JOIN_TICKETS', 'DUP', 'DUPN', 'IF_NONE', 'IF_CONS', 'CONS', 'SELF_IS'):
+        for name in ('TICKET', 'READ_TICKET', 'SPLIT_TICKET', 'JOIN_TICKETS', 'DUP', 'DUPN', 'IF_NONE', 'IF_CONS', 'CONS', 'ITER', 'SELF_IS'):
             if has(prog, (name,)):
                 ctx.dist['uses ' + name] += 1
         if obs[0] == 'other':
